@@ -77,7 +77,7 @@ def gen_random(rng: random.Random, cfgs: list[str]) -> dict:
             else:
                 ops.append(["cp", rng.randint(1, 3)])
 
-        actors.append({"mode": rng.choice(["scope", "native"]), "ops": ops})
+        actors.append({"mode": rng.choice(["scope", "native", "native-in-group"]), "ops": ops})
 
     agents = []
     for _ in range(rng.choice([0, 1, 1, 2, 3])):
@@ -103,7 +103,7 @@ def sweep_cases(cfgs: list[str]):  # noqa: ANN201
             {"prim": "lim", "init": 1},
         ):
             for hold in (0, 1, 2):
-                for mode in ("scope", "native"):
+                for mode in ("scope", "native", "native-in-group"):
                     for victim in (1, 2):
                         for place in ("before", "after"):
                             for at in range(0, 12):
